@@ -788,3 +788,60 @@ Theorem C03_table_swap_refines_generated :
   t_mgrref a' = m /\ t_mgrref b' = m' /\ t_crew a' = t_crew b /\ t_crew b' = t_crew a.
 Proof. exact GenPoolSwap.table_swap_refines_generated. Qed.
 Print Assumptions C03_table_swap_refines_generated.
+
+(* ================================================================== part 9: more TRANSLATED leaves (tools/cxx2coq.py), with refinements *)
+From C03 Require Gen_RawC03 RawGenC03 GenRawTie Gen_HashSetC03 Gen_TreeSetC03 GenClear Gen_MemPoolMergeC03 GenMergeTie.
+
+(* DataColumnList::pvCreateRaw (translated; proof copied from C18): after a failing item construction every record has been destroyed
+   exactly as often as it was created - any number of columns, any record identities, any schedule *)
+Theorem C03_gen_create_raw_failure_leaves_nothing :
+  forall arr n P t c' d',
+  0 <= n <= 65536 -> RawGenC03.first_fail P 0 (Z.to_nat n) = Some t ->
+  Gen_RawC03.pvCreateRaw n arr 0 (fun _ => 0) (fun _ => 0) P = GenPrelude.Ok (false, Z.of_nat t, c', d') -> forall x, d' x = c' x.
+Proof. exact GenRawTie.generated_create_raw_failure_leaves_nothing. Qed.
+Print Assumptions C03_gen_create_raw_failure_leaves_nothing.
+
+(* ... and the hand model's import_row agrees with it on (completed, items constructed, items destroyed): every column count <= 6,
+   every position of the failure *)
+Theorem C03_import_row_refines_generated_bounded :
+  forallb (fun cols => forallb (fun k => GenRawTie.obs_eqb (GenRawTie.l2_obs cols k) (GenRawTie.gen_obs cols k)) (seq 0 (cols + 2))) (seq 0 7) = true.
+Proof. exact GenRawTie.import_row_refines_generated_bounded. Qed.
+Print Assumptions C03_import_row_refines_generated_bounded.
+
+(* HashSet::Clear(true) / TreeSet::Clear (translated): every owning field is null afterwards and the destructor's pvDestroy executes
+   no releasing call *)
+Theorem C03_gen_hashset_clear_shrink_then_destroy :
+  forall nextb cnt cap b : Z,
+  match Gen_HashSetC03.Clear false nextb cnt cap b true with
+  | GenPrelude.Ok (_, cnt', cap', b') => b' = 0 /\ (b <> 0 -> cnt' = 0 /\ cap' = 0) /\ Gen_HashSetC03.pvDestroy true cnt' cap' b' = GenPrelude.Ok tt
+  | _ => False
+  end.
+Proof. exact GenClear.gen_hashset_clear_shrink_then_destroy. Qed.
+Print Assumptions C03_gen_hashset_clear_shrink_then_destroy.
+
+Theorem C03_gen_treeset_clear_then_destroy :
+  forall cnt r p : Z,
+  match Gen_TreeSetC03.Clear false cnt r p with
+  | GenPrelude.Ok (_, cnt', r', p') => r' = 0 /\ p' = 0 /\ Gen_TreeSetC03.pvDestroy true cnt' r' p' = GenPrelude.Ok tt
+  | _ => False
+  end.
+Proof. exact GenClear.gen_treeset_clear_then_destroy. Qed.
+Print Assumptions C03_gen_treeset_clear_then_destroy.
+
+(* pvDestroy (translated) releases iff the pointer is set: the meaning of PNull / PValid in GenTie.v *)
+Theorem C03_pointer_state_refines_generated_pvdestroy :
+  forall cnt cap b : Z,
+  match GenClear.pst_of b with
+  | PNull => Gen_HashSetC03.pvDestroy true cnt cap b = GenPrelude.Ok tt
+  | _ => Gen_HashSetC03.pvDestroy true cnt cap b = GenPrelude.Stuck
+  end /\
+  (destroy_all [("mBuckets"%string, GenClear.pst_of b)] = Some [("mBuckets"%string, match GenClear.pst_of b with PValid => PDangling | x => x end)]).
+Proof. exact GenClear.pointer_state_refines_generated_pvdestroy. Qed.
+Print Assumptions C03_pointer_state_refines_generated_pvdestroy.
+
+(* MemPool::MergeFrom list surgery (translated): on 36 layouts every buffer of both pools is reachable from the destination exactly
+   once, links consistent, source empty; and that buffer set is the one `pool_merge true` of the hand model states *)
+Theorem C03_generated_merge_keeps_every_buffer_bounded :
+  forallb (fun L => let '(fa, ma, fb, mb) := L in GenMergeTie.merge_ok fa 12 ma fb 22 mb) GenMergeTie.layouts = true.
+Proof. exact GenMergeTie.generated_merge_keeps_every_buffer_bounded. Qed.
+Print Assumptions C03_generated_merge_keeps_every_buffer_bounded.
